@@ -282,11 +282,17 @@ def _r17_5_struct(res, P, cfgname):
             if t[0] == 'place' and t[2] == ('.0',) and t[1][0] == 'bin' and 'Add' in t[1][1]:
                 return addends(t[1][2]) + addends(t[1][3])
             return [t]
+        def padded_ok(x):
+            ad = addends(x)
+            consts = [a[1] for a in ad if a[0] == 'const' and isinstance(a[1], int)]
+            return ('arg', 1) in ad and sum(consts) >= 2 and all(a == ('arg', 1) or a[0] == 'const' or (a[0] == 'bin' and a[1] == 'Div' and a[2] == ('arg', 1)) for a in ad)
         ok = False
         if ret[0] == 'call' and 'min' in ret[1]:
-            ad = addends(ret[2][0])
-            consts = [a[1] for a in ad if a[0] == 'const' and isinstance(a[1], int)]
-            ok = ('arg', 1) in ad and sum(consts) >= 2 and all(a == ('arg', 1) or a[0] == 'const' or (a[0] == 'bin' and a[1] == 'Div' and a[2] == ('arg', 1)) for a in ad)
+            ok = padded_ok(ret[2][0])
+        elif ret[0] == 'var':
+            # the same clamp written as an if-expression: one definition is the padded sum, the other the cap
+            defs = [strip_bb(S.rvalue(nd["rv"])) for (_b, ix, nd) in S.du.defs.get(ret[1], []) if ix != 't' and nd.get("k") == "as" and not nd["p"].get("p")]
+            ok = len(defs) == 2 and any(padded_ok(d) for d in defs) and any(sym.strip_casts(d)[0] == 'const' for d in defs)
         key = "dashu_int::buffer::Buffer::default_capacity >= n + 2"
         if ok:
             res.ok("R17.5", cfgname, key, sample=dict(function="default_capacity", term=txt))
